@@ -76,6 +76,19 @@ def check(acc, name, infos, ops, named, meta, sample=False):
         return
     acc.count("fallback_answers")
     inp["text"] = d.text
+    # an object whose convert() fell back answers the same when it is asked again (the fallback works on the ops it was given,
+    # not on what the structuring passes left of them)
+    try:
+        obj = norm.decompiler_exps(infos, ops, named)
+        first = obj.convert()[0]
+        second = obj.convert()[0]
+        acc.count("second_convert_on_the_same_object")
+        if norm.is_fallback(first) and second != first:
+            acc.violation(gsig("second-convert-differs-after-fallback"), {"first": first[-300:], "second": second[-300:]}, inp)
+            return
+    except Exception as e:
+        acc.violation(gsig("second-convert-raised-after-fallback", type(e).__name__), {"error": str(e)[:200]}, inp)
+        return
     from explorerscript.error import ParseError, SsbCompilerError
     try:
         c = norm.compile_exps(d.text)
